@@ -44,7 +44,8 @@ def gen_result(rng, kinds_pool, n_ext):
     r = rng.random()
     spec["duration"] = None if r < 0.15 else float(rng.choice([10.0, 60.0, 3600.0, float(np.round(rng.uniform(1, 5000), 2))]))
     spec["ext"] = [float(np.round(rng.uniform(0, 1000), int(rng.integers(0, 4)))) if rng.random() < 0.8 else 0.0 for _ in range(n_ext)]
-    spec["load"] = None if rng.random() < 0.25 else float(np.round(rng.uniform(0, 1), 3))
+    r = rng.random()       # a generating set at zero power reports a load of exactly 0.0
+    spec["load"] = None if r < 0.25 else (0.0 if r < 0.4 else float(np.round(rng.uniform(0, 1), 3)))
     if rng.random() < 0.25:
         spec["emis"] = None
     else:
